@@ -47,5 +47,6 @@ where
 {
     let mut writer = File::create(dst).map(Writer::new)?;
     writer.write_index(index)?;
-    Ok(())
+    // Finish explicitly, as errors are discarded when the BGZF writer is dropped.
+    writer.try_finish()
 }
